@@ -14,29 +14,43 @@ responsemanager/server.go on every check: per request type the handler and wheth
 satisfies `AllGuarded` and instantiated with the generated one (`dispatch_guarded`, by `decide`);
 removing or weakening the guard in the Go source makes that `decide` fail.
 
-`table_key_is_request_id` records the other generated fact the statements rest on: the table (and the
-subscriber's RequestCloser) address responses by request ID only, which is why the guard is needed
-at all and why the model's table is `ReqId ↦ object`.
+The guard itself is not hand-written: `handleOne` evaluates the comparison term extracted from the
+source (`PeerGuard`: lookup key, left and right operand), and `guardSkips_good` shows that a guard
+comparing the entry's peer with the sender skips exactly the `foreign` requests.
+
+`table_key_is_request_id` records another generated fact the statements rest on: the table is keyed
+by request ID only, which is why the guard is needed at all and why the model's table is
+`ReqId ↦ object`.  `closer_own_response`: the message subscriber's TerminateRequest /
+CloseWithNetworkError only act on the response the subscriber was created for (since fe9afe8).
 -/
 namespace GS.C10
 open GS.RespMgr GS.Generated
 
-/-- every request type is dispatched behind a peer guard -/
-def AllGuarded (d : List DispatchCase) : Bool := d.all (·.peerGuard)
+/-- every request type is dispatched behind a guard that compares the peer field of the table entry
+    found under the request's ID with the sender of the message -/
+def AllGuarded (d : List DispatchCase) : Bool :=
+  d.all fun c => match c.guard with
+    | some g => GoodGuard g
+    | none => false
 
 /-- today's dispatch is guarded for cancel, update and new (depends on the Go source) -/
 theorem dispatch_guarded : AllGuarded RespDispatch.dispatch = true := by decide
 
-/-- the response table and the subscriber's closer are keyed by request ID only -/
-theorem table_key_is_request_id :
-    RespDispatch.keyKind = .requestId ∧ RespDispatch.closerKey = .requestId := by decide
+/-- the response table is keyed by request ID only -/
+theorem table_key_is_request_id : RespDispatch.keyKind = .requestId := by decide
+
+/-- the message subscriber closes only the response it was created for (depends on the Go source) -/
+theorem closer_own_response : RespDispatch.closerKey = .ownResponse := by decide
 
 theorem guard_of_case {d : List DispatchCase} (hg : AllGuarded d = true) {t : ReqType} {c : DispatchCase}
-    (hc : dispatchCase d t = some c) : c.peerGuard = true := by
+    (hc : dispatchCase d t = some c) : ∃ g, c.guard = some g ∧ GoodGuard g = true := by
   unfold dispatchCase at hc
   have hmem : c ∈ d := List.mem_of_find?_eq_some hc
   unfold AllGuarded at hg
-  exact List.all_eq_true.mp hg c hmem
+  have := List.all_eq_true.mp hg c hmem
+  cases hcg : c.guard with
+  | none => simp [hcg] at this
+  | some g => exact ⟨g, rfl, by simpa [hcg] using this⟩
 
 /-! ## single step -/
 
@@ -47,7 +61,8 @@ theorem handleOne_foreign (d : List DispatchCase) (hg : AllGuarded d = true) (q 
   split
   · rfl
   · rename_i c hc
-    simp [guard_of_case hg hc, hf]
+    obtain ⟨g, hcg, hgood⟩ := guard_of_case hg hc
+    simp [hcg, guardSkips_good g hgood, hf]
 
 /-- whatever else a request from `q` does, it stays within `q`'s own responses -/
 theorem handleOne_frame (d : List DispatchCase) (hg : AllGuarded d = true) (q : Peer) (s : State) (x : Request) :
@@ -56,13 +71,13 @@ theorem handleOne_frame (d : List DispatchCase) (hg : AllGuarded d = true) (q : 
   split
   · exact ⟨Frame.refl q s, allPeer_nil q⟩
   · rename_i c hc
-    have hguard := guard_of_case hg hc
+    obtain ⟨g, hcg, hgood⟩ := guard_of_case hg hc
     by_cases hf : foreign s q x = true
-    · simp only [hguard, hf, Bool.and_self, if_true]
+    · simp only [hcg, guardSkips_good g hgood, hf, if_true]
       exact ⟨Frame.refl q s, allPeer_nil q⟩
     · have hf' : foreign s q x = false := by simpa using hf
       have hown : ∀ k o, s.lookup x.id = some (k, o) → o.peer = q := fun k o hl => foreign_false hf' hl
-      simp only [hguard, hf', Bool.and_false, Bool.false_eq_true, if_false]
+      simp only [hcg, guardSkips_good g hgood, hf', Bool.false_eq_true, if_false]
       cases c.handler with
       | new => exact new_frame q s x hown
       | abort => exact abort_frame q s x.id .ctxCancel hown
@@ -133,12 +148,12 @@ inductive ErasedFrom : State → List Op → List Op → Prop
     observes later — its wire output, its completed / cancelled / network-error notifications — is
     what it would have been without the second peer.  By induction on the history. -/
 theorem noninterference_run (s : State) (h h' : List Op) (he : ErasedFrom s h h') :
-    runD RespDispatch.dispatch s h = runD RespDispatch.dispatch s h' := by
+    runD RespDispatch.dispatch RespDispatch.closerKey s h = runD RespDispatch.dispatch RespDispatch.closerKey s h' := by
   induction he with
   | nil s => rfl
   | keep s op ops ops' _ ih =>
     simp only [runD]
-    have : (stepD RespDispatch.dispatch s op) = step s op := rfl
+    have : (stepD RespDispatch.dispatch RespDispatch.closerKey s op) = step s op := rfl
     rw [this, ih]
   | erase s q pre post x ops ops' hx _ ih =>
     rw [← ih]
@@ -146,44 +161,136 @@ theorem noninterference_run (s : State) (h h' : List Op) (he : ErasedFrom s h h'
     simp only [step] at this
     simp only [runD, this]
 
+/-! ## notifications of one peer's messages do not touch another peer's responses -/
+
+theorem streamsOf_peer (s : State) (p : Peer) (j : Nat) (k : Serial) (h : (streamsOf s p)[j]? = some k) :
+    ∃ o, s.obj k = some o ∧ o.peer = p := by
+  have hmem : k ∈ streamsOf s p := List.mem_of_getElem? h
+  unfold streamsOf at hmem
+  have := (List.mem_filter.mp hmem).2
+  split at this
+  · rename_i o ho
+    exact ⟨o, ho, by simpa using this⟩
+  · cases this
+
+/-- **C10, message notifications.**  The "message sent" / "network error" notification of a message
+    that carried (part of) a response served to `p` — including the TerminateRequest and
+    CloseWithNetworkError calls the subscriber makes by request ID — leaves every response object
+    served to another peer, every table entry pointing to one, every other peer's queued tasks, the
+    active tasks and the executors unchanged, and all its events (stream clearing, unprotect,
+    completed / network-error listeners, queue removal) concern `p`.  In particular a response of
+    another peer that re-uses the request ID of an older response of `p` is not closed by `p`'s late
+    notifications.  Depends on `closer_own_response`. -/
+theorem notification_noninterference (s : State) (p : Peer) (j : Nat) (isErr : Bool) :
+    Frame p s (stepD RespDispatch.dispatch RespDispatch.closerKey s (if isErr then .neterr p j else .sent p j)).1
+    ∧ AllPeer p (stepD RespDispatch.dispatch RespDispatch.closerKey s (if isErr then .neterr p j else .sent p j)).2.1 := by
+  rw [closer_own_response]
+  have key : ∀ b, Frame p s (notifyAt RespDispatch.dispatch .ownResponse s p j b none).1
+      ∧ AllPeer p (notifyAt RespDispatch.dispatch .ownResponse s p j b none).2.1 := by
+    intro b
+    unfold notifyAt
+    split
+    · rename_i k hk
+      obtain ⟨o, ho, hp⟩ := streamsOf_peer s p j k hk
+      have := notify_frame RespDispatch.dispatch s k o b ho
+      rw [hp] at this
+      exact this
+    · exact ⟨Frame.refl p s, allPeer_nil p⟩
+  cases isErr
+  · exact key false
+  · exact key true
+
+/-! ## the executor's by-ID calls (GetUpdates, FinishTask) -/
+
+/-- **C10, executor steps.**  An executor that works for `p` on a response served to `p`, while the
+    table entry under its request ID (if any) is served to `p` too, touches only `p`'s responses
+    when it is released for a block — including its GetUpdates and FinishTask calls, which address
+    the response by request ID: objects, table entries and queued tasks of every other peer are
+    unchanged, every event (stream output, update / block hooks, listeners, unprotect, queue
+    operations) concerns `p`.  The hypothesis holds as long as a peer does not re-use one of its own
+    live request IDs; `executor_by_id_counterexample` shows what happens otherwise. -/
+theorem executor_noninterference (s : State) (p : Peer) (id : ReqId)
+    (hown : ∀ e, findExec s.execs (p, id) = some e → OwnExec s e p) :
+    FrameW p s (step s (.step p id)).1 ∧ AllPeer p (step s (.step p id)).2.1 :=
+  stepExec_frame p s (p, id) hown
+
+/-- A state that needs peer 0 to re-use its own live ID: its executor for request 1 is between two
+    blocks with an update pending; peer 0 then sends a second `new 1` (replaces its own table entry)
+    and cancels it; now the ID is free, peer 1 uses it and sends an update of its own. -/
+def sDetached : State :=
+  (runD RespDispatch.dispatch RespDispatch.closerKey {}
+    [.msg 0 [{ typ := .new, id := 1, total := 3 }], .start 0 1, .step 0 1,
+     .msg 0 [{ typ := .update, id := 1, uh := .ext }],
+     .msg 0 [{ typ := .new, id := 1, total := 2 }], .msg 0 [{ typ := .cancel, id := 1 }],
+     .msg 1 [{ typ := .new, id := 1, total := 2 }, { typ := .update, id := 1, uh := .none }]]).1
+
+/-- … peer 0's old executor then fetches *peer 1's* queued update through GetUpdates(1) and runs the
+    update hook on it in peer 0's name.  Out of scope of the theorems above (their hypothesis fails:
+    the entry under the executor's ID is served to peer 1) and of the harness (a peer re-using its
+    own live ID); only an attacker harming a victim that happens to pick the attacker's old ID. -/
+theorem executor_by_id_counterexample :
+    ((sDetached.obj 2).map (·.updates) = some [.none])
+    ∧ (((step sDetached (.step 0 1)).1.obj 2).map (·.updates) = some [])
+    ∧ Ev.hookUpd 0 1 ∈ (step sDetached (.step 0 1)).2.1 := by
+  decide
+
 /-! ## every guard is necessary: the dispatch before commit 7d665e5 is refuted -/
 
 /-- the dispatch of `processRequests` before the fix: no peer guard anywhere -/
 def dispatchBeforeFix : List DispatchCase :=
-  [{ typ := .cancel, handler := .abort, peerGuard := false },
-   { typ := .update, handler := .update, peerGuard := false },
-   { typ := .new, handler := .new, peerGuard := false }]
+  [{ typ := .cancel, handler := .abort, guard := none },
+   { typ := .update, handler := .update, guard := none },
+   { typ := .new, handler := .new, guard := none }]
 
 /-- peer 0 is served response 1 (3 blocks, queued) -/
-def sQueued : State := (stepD dispatchBeforeFix {} (.msg 0 [{ typ := .new, id := 1, total := 3 }])).1
+def sQueued : State := (stepD dispatchBeforeFix .requestId {} (.msg 0 [{ typ := .new, id := 1, total := 3 }])).1
 /-- peer 0 is served response 1, paused by the request hook -/
-def sPaused : State := (stepD dispatchBeforeFix {} (.msg 0 [{ typ := .new, id := 1, total := 3, rh := .paused }])).1
+def sPaused : State := (stepD dispatchBeforeFix .requestId {} (.msg 0 [{ typ := .new, id := 1, total := 3, rh := .paused }])).1
 
 example : sQueued.table.get 1 = some 0 ∧ (sQueued.obj 0).map (·.peer) = some 0 := by decide
 
 /-- **cancel**: peer 1 cancels peer 0's queued response — table entry gone, peer 0's queued task
     removed, its stream cleared, its connection unprotected, the cancelled listener fires for peer 0 -/
 theorem counterexample_cancel :
-    (stepD dispatchBeforeFix sQueued (.msg 1 [{ typ := .cancel, id := 1 }])).1.table.get 1 = none
-    ∧ (stepD dispatchBeforeFix sQueued (.msg 1 [{ typ := .cancel, id := 1 }])).2.1
+    (stepD dispatchBeforeFix .requestId sQueued (.msg 1 [{ typ := .cancel, id := 1 }])).1.table.get 1 = none
+    ∧ (stepD dispatchBeforeFix .requestId sQueued (.msg 1 [{ typ := .cancel, id := 1 }])).2.1
         = [Ev.remove 0 1, Ev.tx 0 0 1 .clear, Ev.unprotect 0 1, Ev.lCancelled 0 1] := by
   decide
 
 /-- **update**: peer 1's update reaches the update hook in peer 0's name and un-pauses peer 0's response -/
 theorem counterexample_update :
-    ((stepD dispatchBeforeFix sPaused (.msg 1 [{ typ := .update, id := 1, uh := .unpause }])).1.obj 0).map (·.state)
+    ((stepD dispatchBeforeFix .requestId sPaused (.msg 1 [{ typ := .update, id := 1, uh := .unpause }])).1.obj 0).map (·.state)
         = some .queued
-    ∧ (stepD dispatchBeforeFix sPaused (.msg 1 [{ typ := .update, id := 1, uh := .unpause }])).2.1
+    ∧ (stepD dispatchBeforeFix .requestId sPaused (.msg 1 [{ typ := .update, id := 1, uh := .unpause }])).2.1
         = [Ev.hookUpd 0 1, Ev.push 0 1] := by
   decide
 
 /-- **new**: peer 1's new request with the same ID replaces peer 0's table entry (peer 0 has no
     response 1 any more according to PeerState), and peer 0's own cancel then kills peer 1's response -/
 theorem counterexample_new :
-    let s1 := (stepD dispatchBeforeFix sQueued (.msg 1 [{ typ := .new, id := 1, total := 2 }])).1
+    let s1 := (stepD dispatchBeforeFix .requestId sQueued (.msg 1 [{ typ := .new, id := 1, total := 2 }])).1
     peerState s1 0 = [] ∧ peerState s1 1 = [(1, .queued)]
-    ∧ (stepD dispatchBeforeFix s1 (.msg 0 [{ typ := .cancel, id := 1 }])).2.1
+    ∧ (stepD dispatchBeforeFix .requestId s1 (.msg 0 [{ typ := .cancel, id := 1 }])).2.1
         = [Ev.remove 1 1, Ev.tx 1 1 1 .clear, Ev.unprotect 1 1, Ev.lCancelled 1 1] := by
+  decide
+
+/-- peer 0's one-block response 1 has been fully processed: it waits for its last message to be sent -/
+def sCompleting : State :=
+  (runD dispatchBeforeFix .requestId {} [.msg 0 [{ typ := .new, id := 1, total := 1 }], .start 0 1, .step 0 1]).1
+
+/-- **late close** (closer by request ID, before commit fe9afe8): the last message of peer 0's
+    response fails to be sent; between the subscriber's CloseWithNetworkError and TerminateRequest
+    peer 1's new request with the same ID is accepted (the ID is free again) — and the second call
+    deletes it: peer 1's connection is unprotected, its response is gone, its task will find nothing. -/
+theorem counterexample_late_close :
+    let r := stepD RespDispatch.dispatch .requestId sCompleting (.neterrInj 0 0 1 [{ typ := .new, id := 1, total := 2 }])
+    peerState r.1 1 = [] ∧ Ev.protect 1 1 ∈ r.2.1 ∧ Ev.unprotect 1 1 ∈ r.2.1 := by
+  decide
+
+/-- today (closer restricted to the subscriber's own response): peer 1's response survives -/
+example :
+    let r := step sCompleting (.neterrInj 0 0 1 [{ typ := .new, id := 1, total := 2 }])
+    peerState r.1 1 = [(1, .queued)] ∧ Ev.unprotect 1 1 ∉ r.2.1 := by
   decide
 
 /-- the same three attacks on today's dispatch: nothing happens
